@@ -100,6 +100,45 @@ fn main() {
             ctx.finish(&rep);
         }
         "noop" => println!("ok"),
+        "probe-kos" => {
+            // ad-hoc: failure rate of the parallel C09 round under a few configurations
+            use qv::reckv::Grouping;
+            qv::hooks::install();
+            {
+                let mut bad = 0;
+                let mut first = String::new();
+                for i in 0..40u64 {
+                    let out = qv::c09::parallel_round(1, 2, 1, 2, 1114, Grouping::Random(4), 16096941606576493694 + i, false, true);
+                    if let Some(b) = out.bad.first() {
+                        bad += 1;
+                        if first.is_empty() {
+                            first = b.clone();
+                        }
+                    }
+                }
+                println!("exact: {bad}/40 rounds bad; {first}");
+            }
+            for (cap, workers, keys, readers, grouping, delays) in [
+                (1u64, 1usize, 1usize, 4usize, Grouping::Always, false),
+                (1 << 18, 1, 1, 4, Grouping::Always, false),
+                (1, 1, 1, 2, Grouping::Always, false),
+                (1, 1, 1, 4, Grouping::Never, false),
+                (1, 1, 1, 4, Grouping::Never, true),
+            ] {
+                let mut bad = 0;
+                let mut first = String::new();
+                for i in 0..40u64 {
+                    let out = qv::c09::parallel_round(cap, workers, keys, readers, 1200, grouping, 77 + i, delays, true);
+                    if let Some(b) = out.bad.first() {
+                        bad += 1;
+                        if first.is_empty() {
+                            first = b.clone();
+                        }
+                    }
+                }
+                println!("cap={cap} workers={workers} keys={keys} readers={readers} {grouping:?} delays={delays}: {bad}/40 rounds bad; {first}");
+            }
+        }
         "hash-child" => qv::c13::hash_child(args[2].parse().unwrap()),
         "typeid-child" => qv::c14::typeid_child(),
         "kill-child" => qv::c08::kill_child(&args[2..]),
